@@ -3,6 +3,7 @@ import FxVerif.Proofs.C05Sorted
 import FxVerif.Proofs.C05Ext
 import FxVerif.Proofs.C05Orig
 import FxVerif.Proofs.C05Sol
+import FxVerif.Proofs.C05Marks
 /-!
 # C05 — every outgoing transfer is in exactly one place and is settled exactly once
 
@@ -214,15 +215,21 @@ theorem refund_exact_call (s : State) (c : Call) (a : Addr) (t : Token) :
   have hr : callCleanupRefunds = true := by decide
   simp [refundCall, hr, getBal_creditAll]
 
-/-- `increase_fee_exact`: a successful fee increase costs the payer exactly the added fee, raises the fee of exactly
-that transfer by exactly that amount, leaves every other field, transfer, balance and the settlement log unchanged -/
-theorem increase_fee_exact (s s' : State) (id : Nat) (who : Addr) (t : Token) (add n : Nat)
-    (h : doIncFee s id who t add = (s', .ok n)) :
+/-- `increase_fee_exact`: a successful fee increase — by `MsgIncreaseBridgeFee` (`evm = false`) or through the
+`increaseBridgeFee` precompile with the token's ERC-20 contract (`evm = true`, round 4) — costs the payer exactly the added
+fee, raises the fee of exactly that transfer by exactly that amount, leaves every other field, transfer, balance and the
+settlement log unchanged; through the precompile the added fee comes out of the caller's ERC-20 balance (which must cover
+it), otherwise no ERC-20 balance moves; the origin relation of the transfer is untouched either way -/
+theorem increase_fee_exact (s s' : State) (id : Nat) (who : Addr) (t : Token) (add n : Nat) (evm : Bool)
+    (h : doIncFee s id who t add evm = (s', .ok n)) :
     ∃ tx, tx ∈ s.pool ∧ tx.id = id ∧ tx.token = t ∧
       s'.pool.Perm ({ tx with fee := tx.fee + add } :: s.pool.erase tx) ∧
       add ≤ getBal s.bal (who, t) ∧
       (∀ k, getBal s'.bal k = if k = (who, t) then getBal s.bal k - add else getBal s.bal k) ∧
-      s'.settled = s.settled ∧ s'.batches = s.batches := by
+      s'.settled = s.settled ∧ s'.batches = s.batches ∧
+      (evm = true → add ≤ getBal s.erc (who, t)) ∧
+      (∀ k, getBal s'.erc k = if k = (who, t) ∧ evm = true then getBal s.erc k - add else getBal s.erc k) ∧
+      s'.relTx = s.relTx := by
   have hpayer : ∀ tx : Tx, incFeePayerOf tx who = who := by
     have : incFeePayer = .msgSender := by decide
     intro tx; simp [incFeePayerOf, this]
@@ -239,10 +246,21 @@ theorem increase_fee_exact (s s' : State) (id : Nat) (who : Addr) (t : Token) (a
       · rename_i hs
         cases h
         have hid : tx.id = id := by simpa using find?_some hf
-        simp only [not_or, Decidable.not_not, Nat.not_lt, ne_eq] at hs
-        refine ⟨tx, mem_of_find?_eq_some hf, hid, hs.2.1, insertDesc_perm _ _, hs.2.2, fun k => ?_, rfl, rfl⟩
-        simp only [getBal_subBal]
-        split <;> simp_all
+        simp only [not_or, Decidable.not_not, Nat.not_lt, ne_eq, not_and] at hs
+        refine ⟨tx, mem_of_find?_eq_some hf, hid, hs.2.1, insertDesc_perm _ _, hs.2.2.1, fun k => ?_, rfl, rfl,
+          hs.2.2.2, fun k => ?_, rfl⟩
+        · simp only [getBal_subBal]
+          split <;> simp_all
+        · simp only [getBal_subBal]
+          cases evm
+          · simp only [Bool.toNat_false, Nat.zero_mul, Nat.sub_zero, Bool.false_eq_true, and_false, if_false]
+            split
+            · rename_i hk; rw [hk]
+            · rfl
+          · simp only [Bool.toNat_true, Nat.one_mul, and_true]
+            split
+            · rename_i hk; rw [hk]
+            · rfl
 
 /-- `cancel_batch_restores_pool`: cancelling batches (time-out, or superseded by an executed batch) puts exactly the
 transfers of the cancelled batches back into the pool, unchanged — multiset equality — and deletes exactly those batches -/
@@ -604,6 +622,151 @@ example : ∃ ops : List Op, let s := run { init 1 [((0, 0), 100), ((1, 0), 100)
            .pcall 0 7 "0x0000000000000000000000000000000000000001" "ab" "" [(0, 7)],
            .bridgeCall 0 7 "0x0000000000000000000000000000000000000001" "ab" "" [(0, 3)],
            .observe 41320 .other], ?_⟩
+  decide
+
+/-! ## round 4: the order of the settlement statements; origin marks = origin log over all histories -/
+
+/-- the settlement statements of an outgoing bridge-call record, in the order they have in `/repo` now: the time-out
+clean-up and a failed result refund first and delete the record afterwards; a successful result only deletes;
+`DeleteOutgoingBridgeCallRecord` deletes the record, its confirmations and — last — its from-message mark.  The model RUNS
+these lists (`callStmts`), so a reordering in the source changes `cleanupCalls` / `doExec` themselves. -/
+theorem source_shapes_settlement_order :
+    callCleanupBody = ["HandleOutgoingBridgeCallRefund", "DeleteOutgoingBridgeCallRecord"] ∧
+    resultFailureBody = ["HandleOutgoingBridgeCallRefund", "DeleteOutgoingBridgeCallRecord"] ∧
+    resultSuccessBody = ["DeleteOutgoingBridgeCallRecord"] ∧
+    deleteRecordBody = ["DeleteOutgoingBridgeCall", "DeleteBridgeCallConfirm", "DeleteBridgeCallFromMsg"] := by decide
+
+/-- `increase_fee_exact`, the data flow of both entry points (regenerated from the Go AST): `AddUnbatchedTxBridgeFee`
+receives the transaction id, the account that pays and the added fee from `MsgIncreaseBridgeFee` field by field, and from the
+`increaseBridgeFee` precompile: its caller (the same caller whose ERC-20 balance `handlerERC20Token` debits by `args.Fee` of
+`args.Token`, and for whom the coins are converted to the bridge denom), `args.TxID`, the converted fee -/
+theorem supplied_fields_reach_the_fee_increase :
+    (["txId", "sender", "addBridgeFee"].map (argOf incFeeAddParams incFeeMsgArgs)) =
+      [some "msg.TransactionId", some "sender", some "msg.AddBridgeFee"] ∧
+    (["txId", "sender", "addBridgeFee"].map (argOf incFeeAddParams incFeePrecompileArgs)) =
+      [some "args.TxID.Uint64()", some "sender.Bytes()", some "addBridgeFee"] ∧
+    incFeePrecompileTakeArgs = ["ctx", "evm", "sender", "args.Token", "args.Fee"] ∧
+    incFeePrecompileConvertArgs = ["ctx", "sender.Bytes()", "feeCoin", "fxTarget"] := by decide
+
+/-- `refund_exact` for one record settled by refund, statements run in source order (every state, every record): the
+refund address gets exactly the record's amounts; as ERC-20 iff the record was NOT marked from-message when the settlement
+began — the refund reads the mark before the deletion removes it; afterwards the mark is gone, exactly this record is
+removed, exactly one refund is logged.  With the two statements swapped the first clause is false (example below). -/
+theorem settle_record_in_source_order (s : State) (c : Call) (body : List String)
+    (hb : body = callCleanupBody ∨ body = resultFailureBody) (a : Addr) (t : Token) :
+    getBal (callStmts c body s).erc (a, t) = getBal s.erc (a, t) +
+      (if a = c.refund ∧ c.nonce ∉ s.fromMsg then creditOf t c.tokens else 0) ∧
+    getBal (callStmts c body s).bal (a, t) = getBal s.bal (a, t) + (if a = c.refund then creditOf t c.tokens else 0) ∧
+    c.nonce ∉ (callStmts c body s).fromMsg ∧ (callStmts c body s).calls = s.calls.erase c ∧
+    (callStmts c body s).settled = s.settled ++ [⟨true, c.nonce, .refunded, c.refund, c.tokens⟩] := by
+  have h0 : body = ["HandleOutgoingBridgeCallRefund", "DeleteOutgoingBridgeCallRecord"] := by
+    rcases hb with rfl | rfl <;> decide
+  have hd : deleteRecordBody = ["DeleteOutgoingBridgeCall", "DeleteBridgeCallConfirm", "DeleteBridgeCallFromMsg"] := by decide
+  have he : callStmts c body s =
+      { refundCall s c with calls := s.calls.erase c, fromMsg := s.fromMsg.filter (fun n => !([c.nonce].contains n)) } := by
+    subst h0
+    simp [callStmts, callStmt, callPrim, hd, refundCall]
+  rw [he]
+  refine ⟨(refund_form_call s c a t).1, (refund_exact_call s c a t).1, by simp, rfl, (refund_exact_call s c a t).2⟩
+
+/-- the order matters: the same two statements swapped refund a message-originated record as ERC-20 -/
+example : let s : State := { init 1 [] {} with calls := [⟨1, 0, 7, [(0, 5)], "", "", "", 9, 1⟩], fromMsg := [1] }
+    let c : Call := ⟨1, 0, 7, [(0, 5)], "", "", "", 9, 1⟩
+    getBal (callStmts c ["HandleOutgoingBridgeCallRefund", "DeleteOutgoingBridgeCallRecord"] s).erc (7, 0) = 0 ∧
+    getBal (callStmts c ["DeleteOutgoingBridgeCallRecord", "HandleOutgoingBridgeCallRefund"] s).erc (7, 0) = 5 := by decide
+
+/-- `origin_marks_are_origin` — over every operation list from every initial state: the store marks that decide the
+FORM of a refund are exactly the logged origins of the entries still held.  A transfer id has an outgoing-transfer
+relation iff it was created through the `crossChain` precompile (ghost log `sentEvm`) and is still in the pool or in a
+batch; an outgoing bridge call is marked from-message iff it was created by `MsgBridgeCall` (ghost log `msgCalls`) and is
+still stored.  So no mark outlives its entry, none is lost while the entry is queued — across batching, batch
+cancellation, fee increases, out-of-order executions, time-outs. -/
+theorem origin_marks_are_origin (s0 : State) (h0 : IsInit s0) (ops : List Op) :
+    let s := run s0 ops
+    let x := (runExt s0 {} ops).2
+    (∀ id, id ∈ s.relTx ↔ (id ∈ x.sentEvm ∧ id ∈ poolIds s ++ batchIds s)) ∧
+    (∀ n, n ∈ s.fromMsg ↔ (n ∈ x.msgCalls ∧ n ∈ callIds s)) := by
+  have hm := MI_run (M_init h0) (inv_init h0) ops
+  rw [runExt_fst] at hm
+  have hi := reachable_inv s0 h0 ops
+  rw [runExt_eq]
+  simp only
+  have nd1 : (allTxIds (run s0 ops)).Nodup := hi.tx.nodup_iff.mpr nodup_range'
+  have nd2 : (allCallIds (run s0 ops)).Nodup := hi.call.nodup_iff.mpr nodup_range'
+  constructor
+  · intro id
+    rw [hm.rel id]
+    constructor
+    · rintro ⟨h1, h2⟩
+      refine ⟨h1, ?_⟩
+      have hlt := hm.evmLt id h1
+      have hmem : id ∈ allTxIds (run s0 ops) := (hi.tx.mem_iff).mpr (by simp only [mem_range'_1]; omega)
+      simp only [allTxIds, mem_append] at hmem ⊢
+      rcases hmem with h | h
+      · exact h
+      · exact absurd h h2
+    · rintro ⟨h1, h2⟩
+      refine ⟨h1, fun h3 => ?_⟩
+      simp only [allTxIds, nodup_append] at nd1
+      exact nd1.2.2 id h2 id h3 rfl
+  · intro n
+    rw [hm.marks n]
+    constructor
+    · rintro ⟨h1, h2⟩
+      refine ⟨h1, ?_⟩
+      have hlt := hm.msgLt n h1
+      have hmem : n ∈ allCallIds (run s0 ops) := (hi.call.mem_iff).mpr (by simp only [mem_range'_1]; omega)
+      simp only [allCallIds, mem_append] at hmem
+      rcases hmem with h | h
+      · exact h
+      · exact absurd h h2
+    · rintro ⟨h1, h2⟩
+      refine ⟨h1, fun h3 => ?_⟩
+      simp only [allCallIds, nodup_append] at nd2
+      exact nd2.2.2 n h2 n h3 rfl
+
+/-- `refund_form_by_origin` — the refund form over histories, stated against the ORIGIN (ghost log) rather than the store
+mark: in every reachable state a successful cancel pays amount + fee as ERC-20 iff the transfer was created through the
+`crossChain` precompile, and refunding a stored outgoing bridge call pays its refund address ERC-20 iff the call was NOT
+created by `MsgBridgeCall` — whatever happened to the entry in between -/
+theorem refund_form_by_origin (s0 : State) (h0 : IsInit s0) (ops : List Op) :
+    let s := run s0 ops
+    let x := (runExt s0 {} ops).2
+    (∀ id who s' n, doCancel s id who = (s', .ok n) → ∃ tx ∈ s.pool, tx.id = id ∧
+      ∀ k, getBal s'.erc k = if k = (who, tx.token) ∧ id ∈ x.sentEvm then getBal s.erc k + (tx.amount + tx.fee)
+        else getBal s.erc k) ∧
+    (∀ c ∈ s.calls, ∀ a t, getBal (refundCall s c).erc (a, t) = getBal s.erc (a, t) +
+      (if a = c.refund ∧ c.nonce ∉ x.msgCalls then creditOf t c.tokens else 0)) := by
+  obtain ⟨hrel, hmarks⟩ := origin_marks_are_origin s0 h0 ops
+  simp only at hrel hmarks ⊢
+  constructor
+  · intro id who s' n h
+    obtain ⟨tx, htx, hid, herc, _, _⟩ := refund_form_cancel _ s' id who n h
+    refine ⟨tx, htx, hid, fun k => ?_⟩
+    have hq : id ∈ poolIds (run s0 ops) ++ batchIds (run s0 ops) := by
+      simp only [mem_append, poolIds, mem_map]; exact Or.inl ⟨tx, htx, hid⟩
+    have : id ∈ (run s0 ops).relTx ↔ id ∈ ((runExt s0 {} ops).2).sentEvm := by
+      rw [hrel id]; exact ⟨fun h => h.1, fun h => ⟨h, hq⟩⟩
+    simp only [herc k, this]
+  · intro c hc a t
+    have hq : c.nonce ∈ callIds (run s0 ops) := by simp only [callIds, mem_map]; exact ⟨c, hc, rfl⟩
+    have : c.nonce ∈ (run s0 ops).fromMsg ↔ c.nonce ∈ ((runExt s0 {} ops).2).msgCalls := by
+      rw [hmarks c.nonce]; exact ⟨fun h => h.1, fun h => ⟨h, hq⟩⟩
+    simp only [(refund_form_call _ c a t).1, this]
+
+/-- non-vacuity: a history after which a precompile-originated transfer sits in a batch (relation kept), a
+message-originated one beside it (no relation), a message-originated bridge call is stored (marked), a precompile one is
+not marked -/
+example : ∃ ops : List Op,
+    let s := run { init 1 [((0, 0), 100), ((1, 0), 100)] {} with erc := [((0, 0), 40), ((1, 0), 40)] } ops
+    let x := (runExt { init 1 [((0, 0), 100), ((1, 0), 100)] {} with erc := [((0, 0), 40), ((1, 0), 40)] } {} ops).2
+    s.relTx = [1] ∧ x.sentEvm = [1] ∧ batchIds s = [1, 2] ∧ s.fromMsg = [2] ∧ x.msgCalls = [2] ∧ callIds s = [1, 2] := by
+  refine ⟨[.observe 1000 .other,
+           .psend 1 "0x0000000000000000000000000000000000000001" 0 5 3,
+           .send 0 "0x0000000000000000000000000000000000000001" 0 5 2,
+           .reqBatch 0 1 0 "0x0000000000000000000000000000000000000002",
+           .pcall 0 7 "0x0000000000000000000000000000000000000001" "ab" "" [(0, 7)],
+           .bridgeCall 0 7 "0x0000000000000000000000000000000000000001" "ab" "" [(0, 3)]], ?_⟩
   decide
 
 /-- non-vacuity of the environment hypothesis: an admissible run in which two batches of different tokens are in flight
